@@ -37,6 +37,15 @@ def extra_names(seed, n):
     return [x for x in sorted(out) if ng.value(x) not in have]
 
 
+def name_of(v):
+    """decimal name of a multiple of 1/4"""
+    assert v.denominator in (1, 2, 4)
+    a = abs(v)
+    i = ng.floor_frac(a)
+    frac = {0: "", ng.Fraction(1, 4): ".25", ng.Fraction(1, 2): ".5", ng.Fraction(3, 4): ".75"}[a - i]
+    return ("-" if v < 0 else "") + str(i) + frac
+
+
 def complete(names):
     """add the neighbours (nearest binary32/binary64 values) that a table over `names` needs to be closed"""
     names = list(names)
@@ -45,9 +54,16 @@ def complete(names):
         v = ng.value(x)
         for y in ng.n32(v) + ng.n64(v):
             if y not in have:
-                assert y.denominator == 1
-                have[y] = str(int(y))
-                names.append(str(int(y)))
+                have[y] = name_of(y)
+                names.append(have[y])
+    for x in list(names):          # the new points need their integer neighbours as well
+        v = ng.value(x)
+        if v.denominator != 1:
+            f = ng.floor_frac(v)
+            for y in (ng.Fraction(f), ng.Fraction(f + 1)):
+                if y not in have:
+                    have[y] = name_of(y)
+                    names.append(have[y])
     return names
 
 
@@ -69,6 +85,7 @@ def run(ctx):
     cases, verdicts = fn_pipeline(
         ctx, "C06", "num", "GenNum", "TraceNum", consts=consts, trace_consts=consts, crate="h_num",
         key=lambda c: {k: c["c"].get(k) for k in ("op", "src", "p", "enc", "dst")},
+        expected=lambda c: None if c["c"]["op"] == "table" else c["exp"],
         observed=lambda o: {k: o["r"].get(k) for k in ("fail", "t", "p")},
         nontrivial=lambda c: c["c"]["op"] != "table" and c["c"]["src"] != c["c"]["dst"],
         rule="TLC enumerates every value of every one of the eleven numeric source types on the abstract number line "
